@@ -19,6 +19,7 @@ const J1: c12::CShape = c12::CShape { inc: &[1, 2], out: &[1, 2, 3], lrn: &[4], 
 const J2: c12::CShape = c12::CShape { inc: &[1, 2, 4], out: &[1, 2, 3], lrn: &[], nxt: &[], auto: false };
 // RawNode scenarios
 const RF: Shape = Shape::follower3(3, 0).with_terms(&[1, 2, 3]).with_term(5).with_commit(1).with_applied(1).with_persisted(3).with_flags(false, false, false);
+const RF0: Shape = Shape::follower3(3, 0).with_terms(&[1, 2, 3]).with_term(5).with_commit(0).with_applied(0).with_persisted(3).with_flags(false, false, false);
 const RF_ASYNC: Shape = Shape::follower3(3, 0).with_terms(&[1, 1, 1]).with_term(5).with_commit(1).with_applied(1).with_persisted(1).with_flags(false, false, false);
 const RL: Shape = L21S.with_commit(1).with_applied(1).with_persisted(2).with_peers(&[PeerShape::probe(2, 2).matched(1).paused(), PeerShape::probe(3, 2).matched(0).paused()]);
 const RL_ACTIVE: Shape = L21S.with_commit(1).with_applied(1).with_persisted(2).with_peers(&[PeerShape::replicate(2, 4, 0).matched(3), PeerShape::probe(3, 2).matched(0).paused()]);
@@ -260,7 +261,7 @@ harnesses! {
       "one Raft::step(MsgHeartbeat) on a follower: commit rule, echo of context, log untouched, stale-term reply rule",
       |s| c05::heartbeat_step(s, &F21) }
     // ---------------- (pre)candidate: vote responses (C02 / C16) ----------------
-    { voteresp_win3, "C02,C16,C03", quick, unwind = 8,
+    { voteresp_win3, "C02,C16,C03,C10,C13", quick, unwind = 8,
       "candidate (3 voters, own vote recorded) receives a grant at its term -> leader; tally oracle; first append broadcast well-formed",
       |s| c02::voteresp_step(s, &CAND3, 2, false, false, 5) }
     { voteresp_pending5, "C02,C03", quick, unwind = 8,
@@ -336,6 +337,9 @@ harnesses! {
     { appresp_ack_snapshot_stale, "C13,C15,C10", quick, unwind = 8,
       "leader: a (delayed) ack of index 1 from a peer whose snapshot at index 3 is still outstanding: matched rises but the peer stays in Snapshot state and nothing is sent",
       |s| c04::appresp_step(s, &L21_SNAP_ACK, 2, 1, false, 0, 0, false, false) }
+    { appresp_ack_snapshot_just_below, "C13,C15", quick, unwind = 8,
+      "leader: a delayed ack of index 2 = one below the outstanding snapshot index 3: matched rises (and commits 2) but the peer stays in Snapshot state and no append is sent",
+      |s| c04::appresp_step(s, &L21_SNAP_ACK, 2, 2, false, 0, 0, false, true) }
     { appresp_ack_snapshot_done, "C13,C15,C10", quick, unwind = 8,
       "leader: ack of index 2 = the pending snapshot index -> snapshot caught up, probing resumes after it",
       |s| c04::appresp_step(s, &L21_SNAP_DONE, 2, 2, false, 0, 0, false, true) }
@@ -455,6 +459,21 @@ harnesses! {
     { rn_heartbeat_commit, "C07,C01,C20", quick, unwind = 8,
       "RawNode follower: heartbeat raising commit to 3 -> committed entries 2..=3 handed once, hs changes in commit only (must_sync false)",
       |s| rawnode::cycle(s, &RnShape::of(RF), &Input::heartbeat(5, 3), &Input::NONE) }
+    { rn_paged_apply, "C07,C01", quick, unwind = 8,
+      "RawNode follower, max_committed_size_per_ready = 0 (one committed entry per hand-off): a heartbeat commits 2..=3 -> Ready hands out 2, the LightReady of advance hands out 3, nothing twice, nothing skipped, has_ready false afterwards",
+      |s| rawnode::cycle_drain(s, &RnShape::of(RF.with_etypes(&[0, 0, 0])).page0(), &Input::heartbeat(5, 3), 1) }
+    { rn_paged_apply_3, "C07,C01", quick, unwind = 8,
+      "same from applied = 0 with three entries to hand out: Ready 1, LightReady 2, next Ready 3",
+      |s| rawnode::cycle_drain(s, &RnShape::of(RF0.with_etypes(&[0, 0, 0])).page0(), &Input::heartbeat(5, 3), 2) }
+    { rn_apply_ahead, "C07,C01", quick, unwind = 8,
+      "RawNode follower with max_apply_unpersisted_log_limit = 1: an append brings 4..=5 and commits 5 while only 1..=3 are persisted -> the Ready hands out 2..=4 (one unpersisted entry, across the stable/unstable boundary), after persistence the rest",
+      |s| rawnode::cycle_drain(s, &RnShape::of(RF).apply_ahead(1), &Input::append(5, 3, 3, &[5, 5], 5), 1) }
+    { rn_async_append, "C07,C06,C01", quick, unwind = 8,
+      "RawNode follower, asynchronous persistence: an append brings 4..=5 and commits 5; Ready hands out 2..=3 (persisted), advance_append_async must not move the persisted index, on_persist_ready(number) moves it to 5, the next Ready hands out exactly 4..=5",
+      |s| rawnode::cycle_async(s, &RnShape::of(RF), &Input::append(5, 3, 3, &[5, 5], 5)) }
+    { rn_async_snapshot, "C07,C15,C06", quick, unwind = 8,
+      "RawNode follower, asynchronous persistence of a snapshot Ready (index 5): nothing counts as persisted before the notice; after it persisted = applied base = 5 and nothing is handed out twice",
+      |s| rawnode::cycle_async(s, &RnShape::of(RF), &Input::snapshot(5, 5, 4)) }
     { rn_async_overwrite, "C07,C04,C14,C06,C20", quick, unwind = 8,
       "RawNode follower with an in-flight Ready (entries 2..3 of term 1 written, fsync notice outstanding): a new leader's append overwrites 2..3 (term 2) and commits 3, then the stale notice arrives -> persisted must not move onto the new, unwritten entries; nothing unpersisted is handed out",
       |s| rawnode::async_overwrite(s, &RnShape::of(RF_ASYNC).records(&[(1, Some((3, 1)), None)], 1), &Input::append(5, 1, 1, &[2, 2], 3), 1) }
@@ -1232,10 +1251,10 @@ harnesses! {
     { c18_step_c2_b2_pn, "C18", quick, unwind = 12,
       "one op of every kind (incl. set_cap(0..=4)) from every II-state with cap=2, 2 initialised buffer slots, pending shrink None: all ring rotations and fill levels, symbolic contents",
       |s| c18::step(s, 2, 2, true, None, 4) }
-    { c18_step_c2_b2_p0, "C18", quick, unwind = 12,
+    { c18_step_c2_b2_p0, "C18,C13", quick, unwind = 12,
       "one op of every kind (incl. set_cap(0..=4)) from every II-state with cap=2, 2 initialised buffer slots, pending shrink Some(0): all ring rotations and fill levels, symbolic contents",
       |s| c18::step(s, 2, 2, true, Some(0), 4) }
-    { c18_step_c2_b2_p1, "C18", quick, unwind = 12,
+    { c18_step_c2_b2_p1, "C18,C13", quick, unwind = 12,
       "one op of every kind (incl. set_cap(0..=4)) from every II-state with cap=2, 2 initialised buffer slots, pending shrink Some(1): all ring rotations and fill levels, symbolic contents",
       |s| c18::step(s, 2, 2, true, Some(1), 4) }
     { c18_step_c3_unalloc, "C18", thorough, unwind = 13,
